@@ -22,6 +22,7 @@ function hx(s){var o="";for(var i=0;i<s.length;i++){var c=s.charCodeAt(i);if(c!=
 function li(v){if(typeof v!=="number")return "T"+typeof v;if(v!==v)return "nan";if(v===Infinity)return "pinf";if(v===-Infinity)return "ninf";if(Math.floor(v)===v)return "i"+String(v);return "h"+String(Math.floor(v))}
 function it(x){return x===undefined?"U":"="+hx(String(x))}
 function res(v){if(v===null)return "null";if(v===undefined)return "undef";if(v===true)return "true";if(v===false)return "false";if(typeof v==="number")return "n"+String(v);if(typeof v==="string")return "s"+hx(v);if(v instanceof Array){var o=[];for(var i=0;i<v.length;i++)o.push(it(v[i]));return "A"+(v.hasOwnProperty("index")?String(v.index):"")+":"+o.join(",")}return "other"}
+function okTok(r){var t=String(r);return "ok:"+hx(r.source)+":"+t.slice(t.lastIndexOf("/")+1)}
 function F(){var a=[];for(var i=0;i<arguments.length;i++)a.push(arguments[i]===undefined?"U":String(arguments[i]));return "<"+a.join(",")+">"}
 `
 
@@ -91,13 +92,40 @@ func implC10(line string) (out string) {
 			vmPool.Put(vm)
 		}
 	}()
-	vm.Set("P", unhex(f[1]))
-	vm.Set("FL", unhex(f[2]))
-	if _, err := vm.Run("var re = new RegExp(P, FL)"); err != nil {
-		return "error"
+	prefix := ""
+	if f[0] == "xc" { // a RegExp built from the RegExp R0 = new RegExp(P, FL)
+		mode := f[1]
+		f = append([]string{"x"}, f[2:]...)
+		vm.Set("P", unhex(f[1]))
+		vm.Set("FL", unhex(f[2]))
+		if _, err := vm.Run("var R0 = new RegExp(P, FL)"); err != nil {
+			return errTok(err)
+		}
+		src := map[string]string{"n": "new RegExp(R0)", "u": "new RegExp(R0, undefined)", "f": "RegExp(R0)", "e": `new RegExp(R0, "g")`, "c": `RegExp(R0, "g")`}[mode]
+		if src == "" {
+			return "bad-mode"
+		}
+		if _, err := vm.Run("var re = " + src); err != nil {
+			return errTok(err)
+		}
+		v, err := vm.Run(`(re === R0 ? "same:" : "copy:") + okTok(re) + "|"`)
+		if err != nil {
+			return "throw-props"
+		}
+		prefix = v.String()
+	} else {
+		vm.Set("P", unhex(f[1]))
+		vm.Set("FL", unhex(f[2]))
+		if _, err := vm.Run("var re = new RegExp(P, FL)"); err != nil {
+			return errTok(err)
+		}
 	}
 	if f[0] == "new" {
-		return "ok"
+		v, err := vm.Run("okTok(re)")
+		if err != nil {
+			return "throw-props"
+		}
+		return v.String()
 	}
 	vm.Set("S", unhex(f[3]))
 	var parts []string
@@ -136,7 +164,16 @@ func implC10(line string) (out string) {
 		}
 		parts = append(parts, v.String())
 	}
-	return strings.Join(parts, ";")
+	return prefix + strings.Join(parts, ";")
+}
+
+// errTok names the class of a thrown error: throw:SyntaxError, throw:TypeError, …
+func errTok(err error) string {
+	msg := err.Error()
+	if i := strings.IndexByte(msg, ':'); i > 0 {
+		return "throw:" + msg[:i]
+	}
+	return "throw:" + h.Sanitize(msg)
 }
 
 // ---------------------------------------------------------------- generators
@@ -422,7 +459,7 @@ func (g *gen) flags() string {
 var snippets = []string{`(?=a)`, `(?!a)`, `\1`, `\2`, `\10`, `\12`, `\8`, `\9`, `(?i)`, `(?P<n>a)`, `\a`, `\_`, `\x4`, `\u12`, `\c1`, `\c`, `[]`, `[^]`,
 	`a**`, `a{2}{3}`, `a{3,2}`, `a{1001}`, `a{1000}`, `{`, `}`, `]`, `a{,2}`, `^*`, `\b+`, `$?`, `(`, `)`, `[`, `\`, `[b-a]`, `[a-\d]`, `[\d-a]`, `x{2`, `\00`, `\01`,
 	`\777`, `\A`, `\z`, `\Q`, `\e`, `(?<n>a)`, `(?:`, `(?`, `*`, `+`, `?`, `|*`, `(*a)`, `a+?+`, `a*?`, `a??`, `[a-]`, `[-a]`, `[a-b-c]`, `\07`, `\3x`, `(a)\1`,
-	`[]|[a]`, `[^]a]`, `[]a]`, `\18`, `\81`, `(?=a)*`, `(?im)`, `(?i:a)`, `(?-i)`, `(?i-m:a)`, `\u00zz`, `\xg1`, `\cé`, `\y`, `\Z`, `{1}`, `a{1`, `a{1,`, `a{1,2`, `a{ 1}`, `a{01}`, `a{00,1}`, `a{1,02}`, `(a{500}){3}`, `(a{2}){501}`, `(?)`, `(?-)`, `a{0}`, `a{0,0}`}
+	`[]|[a]`, `[^]a]`, `[]a]`, `\18`, `\81`, `(?=a)*`, `(?im)`, `(?i:a)`, `(?-i)`, `(?i-m:a)`, `\u00zz`, `\xg1`, `\cé`, `\y`, `\Z`, `{1}`, `a{1`, `a{1,`, `a{1,2`, `a{ 1}`, `a{01}`, `a{00,1}`, `a{1,02}`, `(a{500}){3}`, `(a{2}){501}`, `(?)`, `(?-)`, `a{0}`, `a{0,0}`, `\\u20ac`, `\400`, `\1234`, `\377a`, `(?-i)a`, `(?P<n>a)`, `(?i:a)`, `a/b`, `[/]/`}
 
 func genC10(c *h.Ctx) {
 	g := &gen{r: c.Rng}
@@ -433,6 +470,11 @@ func genC10(c *h.Ctx) {
 			p = mutate(g, p)
 		}
 		c.Add("tr "+hexTok(p), "tr")
+	}
+	for _, s := range []string{"\\\u20ac", "a\\\u2028b", "[\\\u20ac]"} { // a backslash before a non-ASCII character
+		c.Add("tr "+hexTok(s), "tr:snippet")
+		c.Add("new "+hexTok(s)+" -", "new:snippet")
+		c.Add("x "+hexTok(s)+" - "+hexTok("a\u20acb")+" e", "x:snippet")
 	}
 	for _, s := range snippets {
 		c.Add("tr "+hexTok(s), "tr:snippet")
@@ -461,6 +503,30 @@ func genC10(c *h.Ctx) {
 					c.Add("x "+hexTok(p)+" "+hexTok(fl)+" "+hexTok(s)+" "+st, "x:nullable_loop")
 				}
 			}
+		}
+	}
+	// RegExp objects built from RegExp objects: every flag combination x every way of copying x operations
+	{
+		pats := []string{"a", "a/b", "", "(a)|b", "[/]", `a\/b`, "^a", "b*"}
+		subj := []string{"aaba", "a/ba/b", "", "xa"}
+		ops := []string{"e", "e,e,e", "t,t", "m", "rS:" + hexTok("-"), "rF", "s", "p:u", "L:i1,e"}
+		for _, p := range pats {
+			for _, fl := range []string{"", "g", "i", "m", "gi", "gm", "im", "gim", "mig"} {
+				for _, mode := range []string{"n", "u", "f", "e", "c"} {
+					for _, s := range subj {
+						for _, st := range ops {
+							c.Add("xc "+mode+" "+hexTok(p)+" "+hexTok(fl)+" "+hexTok(s)+" "+st, "xc:"+mode)
+						}
+					}
+				}
+			}
+		}
+		for i := 0; i < c.N(3000, 100000); i++ {
+			st := make([]string, 1+g.r.Intn(3))
+			for j := range st {
+				st[j] = g.step()
+			}
+			c.Add("xc "+g.pick([]string{"n", "n", "u", "f", "e", "c"})+" "+hexTok(g.pattern())+" "+hexTok(g.flags())+" "+hexTok(g.subject())+" "+strings.Join(st, ","), "xc:random")
 		}
 	}
 	// region astral_subject: BMP and astral characters before and after the match, every operation
